@@ -15,10 +15,12 @@ import CentrifugeVerif.Props.C12
 -/
 namespace CentrifugeVerif.Limits
 
-/-- a client subscribe request (regular or map) for a channel name longer than `ChannelMaxLength` is
-rejected with `ErrorBadRequest` and changes nothing -/
+/-- a client subscribe request — regular, map or shared-poll (all three entry paths) — for a channel
+name longer than `ChannelMaxLength` is rejected with `ErrorBadRequest` and changes nothing.  (The
+shared-poll path lacked the check until /repo commit 931f86e2: finding C37-2.) -/
 theorem channel_name_too_long_rejected (s : LState) (ch len : Nat) (hm : 0 < s.maxLen) (hl : s.maxLen < len) :
-    step s (.subReg ch len) = (s, .badRequest) ∧ step s (.subMapValidate ch len) = (s, .badRequest) := by
+    step s (.subReg ch len) = (s, .badRequest) ∧ step s (.subMapValidate ch len) = (s, .badRequest) ∧
+      step s (.subPoll ch len) = (s, .badRequest) := by
   simp [step, hm, hl]
 
 example : step { limit := 2, maxLen := 6 } (.subReg 1 7) = ({ limit := 2, maxLen := 6 }, .badRequest) := by decide
@@ -39,7 +41,7 @@ theorem step_regular_inv (s : LState) (e : Ev) (he : e.regular = true) (hl : 0 <
     repeat' split
     all_goals simp_all [LState.total]
     omega
-  | subPoll ch =>
+  | subPoll ch len =>
     simp only [step]
     repeat' split
     all_goals simp_all [LState.total]
@@ -97,7 +99,7 @@ further channel is answered `ErrorLimitExceeded` (regular, map and shared-poll a
 theorem limit_plus_one_rejected (s : LState) (ch len : Nat) (hl : 0 < s.limit) (hfull : s.limit ≤ s.total)
     (hlen : ¬ (0 < s.maxLen ∧ s.maxLen < len)) (hnew : s.inChannels ch = false ∧ s.inMap ch = false) :
     step s (.subReg ch len) = (s, .limitExceeded) ∧ step s (.subMapValidate ch len) = (s, .limitExceeded) ∧
-      step s (.subPoll ch) = (s, .limitExceeded) := by
+      step s (.subPoll ch len) = (s, .limitExceeded) := by
   simp [step, hlen, hnew.1, hnew.2, hl, hfull]
 
 /-- a server-side subscribe on a connection that already has `limit` entries in `c.channels` closes the
@@ -174,17 +176,19 @@ theorem step_client_inv (s : LState) (e : Ev) (hl : 0 < s.limit) (ht : s.clientE
           simp only [LState.clientEntries, List.filter_append, List.length_append, List.filter_cons,
             List.filter_nil, Entry.isClient, if_true, List.length_cons, List.length_nil] at ht hct ⊢
           omega
-  | subPoll ch =>
+  | subPoll ch len =>
     simp only [step]
     split
     · exact ht
     · split
       · exact ht
-      · rename_i hfull
-        have hlt : s.total < s.limit := by omega
-        simp only [LState.clientEntries, List.filter_append, List.length_append, List.filter_cons,
-          List.filter_nil, Entry.isClient, if_true, List.length_cons, List.length_nil] at ht hct ⊢
-        omega
+      · split
+        · exact ht
+        · rename_i hfull
+          have hlt : s.total < s.limit := by omega
+          simp only [LState.clientEntries, List.filter_append, List.length_append, List.filter_cons,
+            List.filter_nil, Entry.isClient, if_true, List.length_cons, List.length_nil] at ht hct ⊢
+          omega
   | subMapValidate ch len =>
     simp only [step]
     repeat' split
@@ -294,7 +298,7 @@ example :
 /-- a shared-poll subscribe while a map subscription is still paginating and the connection is at its
 limit is refused (the in-flight map reservation counts) -/
 example :
-    (step (run { limit := 1, maxLen := 0 } [.subMapValidate 1 2, .mapReserve 1]) (.subPoll 201)).2 = .limitExceeded := by
+    (step (run { limit := 1, maxLen := 0 } [.subMapValidate 1 2, .mapReserve 1]) (.subPoll 201 8)).2 = .limitExceeded := by
   decide
 
 /-- examined, not a finding: server-side `Client.Subscribe` compares `len(c.channels)` alone with the
